@@ -47,6 +47,14 @@ def run(ctx, rep):
         rep.floor("R3", "states that can shift `error` for %s" % nt, seen.get(nt, 0), 1)
     rep.analysed["automaton states"] = a["state_count"]
     recovery_model(ctx, rep, a)
+    # ---- R6: the tree of a file with a malformed member goes through the same pipeline as any other
+    rep.rule("R6", "inherits C12 H7: Parser::validate hands EVERY stored result to validation::validate (no file is returned unvalidated because it has syntax diagnostics: its surviving members would keep unresolved types / unpropagated oneway)")
+    import c12
+    import core as _core
+    r12 = _core.Report("C12")
+    c12.run(ctx, r12)
+    bad = [v for v in r12.violations if v.rule == "H7"]
+    rep.check(not bad, "R6", "C14|R6|validate-all", bad[0].where if bad else None, bad[0].message if bad else "Parser::validate = validation::validate(collect_item_keys(), all results)")
     rep.assumptions += ["TB-2 lalrpop_util's recovery algorithm (drops tokens until the error production can be followed by the lookahead)", "TB-1/TB-4 for R1, R2"]
     rep.not_decided += ["malformed members longer than the bound of rule R5, and documents outside its frames (R5 explores a model of the parser - exported automaton + transcription of lalrpop_util's recovery loop - not the generated code)"]
 
